@@ -161,7 +161,11 @@ func (c *tracingHTTP2Conn) handleFrame(frame http2.Frame, isRequest bool) {
 			stream.builder.trace.Request.Trailer = makeHeaders(frame)
 		default:
 			// response trailers
-			stream.builder.trace.Response.Trailer = makeHeaders(frame)
+			if resp := stream.builder.trace.Response; resp != nil {
+				// (there is no response in the trace if the request has no
+				// test case name, since the builder then ignores all events)
+				resp.Trailer = makeHeaders(frame)
+			}
 		}
 		if frame.StreamEnded() {
 			c.closeStreamLocked(frame.StreamID, stream, isRequest, nil)
